@@ -32,7 +32,9 @@
    DECODER.  `dec` transcribes decode_from_dict on raw JSON, allocating fresh objects in a new
    heap; `refs` maps "__id" marks to the decoded objects (registered after the children).
    `json_to_state` = dec + re-creation of the two head callbacks of every head of every flow
-   state as partial(_flow_head_changed, state, flow_state). *)
+   state as partial(_flow_head_changed, state, flow_state).  The two loops of the source only
+   assign attributes of heads, so the model first reads the (flow state, head) pairs from the
+   decoded state (`collect_heads`) and then performs the assignments (`redo_head`) in order. *)
 From Coq Require Import ZArith List String Bool Ascii Lia DecimalString.
 Import ListNotations.
 Open Scope string_scope.
@@ -481,28 +483,36 @@ Definition redo_head (state fs : val) (acc : option (heap * id)) (head : val) : 
     end
   end.
 
-Definition redo_flow (state : val) (acc : option (heap * id)) (fs : val) : option (heap * id) :=
-  match acc with
-  | None => None
-  | Some (h, n) =>
+(* the (flow state, head) pairs the two loops of json_to_state visit, in order.  The loop body
+   assigns attributes of heads only, so the dicts it iterates are the ones of the decoded state. *)
+Fixpoint collect_flows (h : heap) (fss : list val) : option (list (val * val)) :=
+  match fss with
+  | [] => Some []
+  | fs :: r =>
     match field h fs "heads" with
     | None => None
     | Some hv =>
-      match dict_values h hv with
-      | None => None
-      | Some heads => fold_left (redo_head state fs) heads (Some (h, n))
+      match dict_values h hv, collect_flows h r with
+      | Some heads, Some rest => Some (map (fun x => (fs, x)) heads ++ rest)%list
+      | _, _ => None
       end
     end
   end.
 
-Definition redo_callbacks (h : heap) (n : id) (state : val) : option (heap * id) :=
+Definition collect_heads (h : heap) (state : val) : option (list (val * val)) :=
   match field h state "flow_states" with
   | None => None
   | Some fv =>
     match dict_values h fv with
     | None => None
-    | Some fss => fold_left (redo_flow state) fss (Some (h, n))
+    | Some fss => collect_flows h fss
     end
+  end.
+
+Definition redo_callbacks (h : heap) (n : id) (state : val) : option (heap * id) :=
+  match collect_heads h state with
+  | None => None
+  | Some W => fold_left (fun acc fh => redo_head state (fst fh) acc (snd fh)) W (Some (h, n))
   end.
 
 Definition json_to_state (fl : flags) (C : classes) (limit : nat) (j : json) : option (heap * val) :=
